@@ -62,8 +62,12 @@ def run(ctx):
                     ss = [gen.series(crng, m, "dyadic") for m in lens]
                 kw = gen.rand_settings(crng, min(lens), min(lens), with_mld=False)
                 kw.pop("psi", None)
-                if crng.random() < 0.4:
+                x = crng.random()
+                if x < 0.3:
                     kw["psi"] = crng.randint(0, min(lens) - 1)
+                elif x < 0.65 and min(lens) >= 2:
+                    m = min(lens) - 1
+                    kw["psi"] = (crng.randint(0, m), crng.randint(0, m), crng.randint(0, m), crng.randint(0, m))
                 if nd:
                     kwp = dict(kw, use_ndim=True)
                 else:
